@@ -64,12 +64,13 @@ func (f *frontMatterHandlerImpl) Split() error {
 
 	for {
 		peekBytes, err := reader.Peek(3)
-		if errors.Is(err, io.EOF) {
+		if errors.Is(err, io.EOF) && len(peekBytes) == 0 {
 			// we've finished reading the yaml content..I guess
 			break
-		} else if err != nil {
+		} else if err != nil && !errors.Is(err, io.EOF) {
 			return err
 		}
+		// (fewer than three bytes are left: a last line such as `-` or `}` - it is part of the front matter)
 		if lineCount > 0 && string(peekBytes) == "---" {
 			// we've finished reading the yaml content..
 			break
